@@ -158,6 +158,15 @@ Example C18_default_timeout_instance :
   cfg_of 100 20 3 = mkCfg 200 1 1 true /\ N.to_nat pause_ack_window = 5%nat /\ (198 + Nat.max 1 1 < 200)%nat.
 Proof. vm_compute. repeat split; auto. Qed.
 
+(* the side condition cannot be dropped altogether: with a gate sleep as long as the timeout (keep-alives
+   every 3 ticks, timeout 3 ticks) and a pause of 3 ticks the peer's reader times out *)
+Example C18_bound_needed : exists xs a,
+  arun (mkCfg 3 1 3 true) 1 1 3 (ainit 1) xs = Some a /\ xBad a = true /\ ~ (3 + Nat.max 1 3 < 3)%nat.
+Proof.
+  exists [XPause; XSCall; XRCall; XTick; XTick; XTick]. eexists. split; [vm_compute; reflexivity|].
+  split; [reflexivity|]. cbn. intros H. apply (proj1 (Nat.lt_nge _ _) H). repeat constructor.
+Qed.
+
 (* non-vacuity: a reader that is reachable, blocked in a read, pausing; a keep-alive; a paused sender
    already past its check *)
 Example C18_nonvacuous :
